@@ -114,7 +114,15 @@ def witness_cases(pid, layer, wit, seed):
     if not vals:
         return cs
     if layer == 'field':
-        sc = ','.join(hx(v) for v in vals)
+        # also scalings that make a COORDINATE of G / 5G equal to the witness value (the first products of the formulas then see it)
+        g5x, g5y = 0x2f8bde4d1a07209355b4a7250a5c5128e88b84bddc619ab7cba8d569b240efe4, 0xd8ac222636e5e3d6d4dba9dda6c9c426f788271bab0d6840dca87d3aa6ac62d6
+        zs = list(vals)
+        for v in vals[:4]:
+            for c_ in (GX, GY, g5x, g5y):
+                z = v * pow(c_, -1, P) % P
+                if z and z not in zs:
+                    zs.append(z)
+        sc = ','.join(hx(v) for v in zs[:24])
         if pid in ('C02', 'C01'):
             cs += [{'kind': 'el-scaled', 'a': hx(v), 'b': hx(1)} for v in vals] + [{'kind': 'el-scaled', 'a': hx(1), 'b': hx(v)} for v in vals]
             cs.append({'kind': 'el-battery', 'op': 'group', 'n': seed, 'a': sc})
@@ -127,6 +135,21 @@ def witness_cases(pid, layer, wit, seed):
         if pid in ('C03', 'C04'):
             cs += [{'kind': 'el-decode', 'a': pre + hx(v)} for v in vals for pre in ('02', '03')]
             cs += [{'kind': 'el-decode', 'a': '04' + hx(GX) + hx(v)} for v in vals] + [{'kind': 'el-decode', 'a': '04' + hx(v) + hx(GY)} for v in vals]
+            # genuine curve points having the witness as a coordinate (as x: y = sqrt(x^3+7); as y: x = cuberoot(y^2-7), p = 7 mod 9)
+            allv = []
+            for w in wit:
+                for v in (w * pow(R, -1, P) % P, w % P):
+                    if v and v not in allv:
+                        allv.append(v)
+            for v in allv[:24]:
+                rhs = (pow(v, 3, P) + 7) % P
+                if pow(rhs, (P - 1) // 2, P) == 1:
+                    y = pow(rhs, (P + 1) // 4, P)
+                    cs += [{'kind': 'el-decode', 'a': '04' + hx(v) + hx(y)}, {'kind': 'el-decode', 'a': '%02x' % (2 + (y & 1)) + hx(v)}]
+                c3 = (v * v - 7) % P
+                x = pow(c3, (P + 2) // 9, P)
+                if pow(x, 3, P) == c3:
+                    cs += [{'kind': 'el-decode', 'a': '04' + hx(x) + hx(v)}, {'kind': 'el-decode', 'a': '%02x' % (2 + (v & 1)) + hx(x)}]
         if pid in ('C11', 'C08'):
             cs += [{'kind': 'sswu', 'a': hx(v)} for v in vals]
         if pid == 'C19':
